@@ -4,7 +4,8 @@ From HTA.lib Require Import Base Cells Intervals.
 From HTA.model Require Import C04_Model.
 From HTA.gen Require Import KernelRules_gen.
 From HTA.proof Require Import KernelRulesTie C04_Proofs.
-From HTA.proof Require Import Scale C04_Scale.
+From HTA.gen Require Import BreakdownRules_gen.
+From HTA.proof Require Import Scale C04_Scale C04_RulesTie.
 
 (* For EVERY ts-sorted permutation D', C' of the device / computation intervals (pandas' unstable
    sort may return any of them): kernel_time = span, idle = uncovered cells, compute = cells covered
@@ -71,3 +72,13 @@ Print Assumptions C04_kernel_types_follow_source.
 Theorem C04_resolution_independent : forall k l, 0 < k -> model_C04 (scale_evs k l) = scale4 k (model_C04 l).
 Proof. exact C04_scale. Qed.
 Print Assumptions C04_resolution_independent.
+
+(* the grouping test of merge_kernel_intervals (a new group iff the start is STRICTLY greater than the running maximum of the previous ends)
+   and the arithmetic of the four reported times are read from the source on every run (strict statement-by-statement reading of
+   merge_kernel_intervals, _get_idle_time_for_kernels and the per-rank helper) and are the model's *)
+Theorem C04_rules_follow_source : forall (D' C' : list itv) cs ce m s e r,
+  breakdown D' C' = breakdown_gen (first_ts (merge_sorted D')) (last_end (merge_sorted D')) (total (merge_sorted D')) (total (merge_sorted C')) /\
+  merge_aux cs ce m ((s, e) :: r) =
+    (if new_group_gen m s then (cs, ce) :: merge_aux s e (Z.max m e) r else merge_aux (Z.min cs s) (Z.max ce e) (Z.max m e) r).
+Proof. exact breakdown_rules_are_generated. Qed.
+Print Assumptions C04_rules_follow_source.
